@@ -227,6 +227,43 @@ def scal_eq(a, b):
     return a == b
 
 
+# -- mixed-radix indices ---------------------------------------------------------------------------
+class Enc:
+    """Row-major encoded index  ((i1*d2 + i2)*d3 + i3 ...)  kept as its digits: the index into an axis that
+    a reshape created by merging axes.  Decoding is then structural (no div/mod by symbolic dimensions);
+    that reshape is this row-major bijection is the library axiom."""
+    __slots__ = ("parts",)
+
+    def __init__(self, parts):
+        flat = []
+        for i, d in parts:
+            if isinstance(i, Enc):
+                flat.extend(i.parts)
+            else:
+                flat.append((i, d))
+        self.parts = flat
+
+    def to_int(self):
+        v = 0
+        for i, d in self.parts:
+            v = v * d + i
+        return v
+
+    def __repr__(self):
+        return f"Enc({self.parts})"
+
+
+def as_int(i):
+    return i.to_int() if isinstance(i, Enc) else i
+
+
+def _same_dim(a, b):
+    if isinstance(a, int) and isinstance(b, int):
+        return a == b
+    az, bz = SInt.lift(a), SInt.lift(b)
+    return z3.simplify(az).eq(z3.simplify(bz))
+
+
 # -- stores and views -----------------------------------------------------------------------------
 class Store:
     def __init__(self, shape, cell, name=""):
@@ -241,7 +278,7 @@ def input_store(name, shape, kind="real"):
     f = z3.Function(name, *([z3.IntSort()] * len(shape)), z3.RealSort())
 
     def cell(idx):
-        return SReal.mk(f(*[SInt.lift(i) for i in idx]))
+        return SReal.mk(f(*[SInt.lift(as_int(i)) for i in idx]))
     return Store(shape, cell, name)
 
 
@@ -302,7 +339,12 @@ class IArr:
             if ax[0] == "fix":
                 out.append(ax[1])
             elif ax[0] == "rng":
-                out.append(ax[1] + vidx[ax[2]])
+                v = vidx[ax[2]]
+                if isinstance(v, Enc):
+                    v = v if (isinstance(ax[1], int) and ax[1] == 0) else v.to_int()
+                    out.append(v if isinstance(v, Enc) else ax[1] + v)
+                else:
+                    out.append(ax[1] + v)
             else:
                 out.append(comp)
         return tuple(out)
@@ -439,6 +481,7 @@ class IArr:
         st.written = True
 
         def new(idx):
+            idx = tuple(as_int(i) for i in idx)
             conds = []
             vidx = [None] * len(tv.vshape)
             comp = None
@@ -500,7 +543,10 @@ class IArr:
                     if ax[0] == "fix":
                         out.append(ax[1])
                     elif ax[0] == "rng":
-                        out.append(ax[1] + vi[ax[2]])
+                        v = vi[ax[2]]
+                        if isinstance(v, Enc) and not (isinstance(ax[1], int) and ax[1] == 0):
+                            v = v.to_int()
+                        out.append(v if isinstance(v, Enc) else ax[1] + v)
                     else:
                         out.append(comp)
                 return tuple(out)
@@ -580,10 +626,39 @@ class IArr:
         oshape = list(self.vshape)
 
         def fn(vi):
-            # row-major linear index, then unravel into the old shape
+            # structural route: digits of the new index regrouped against the old shape
+            digits = []
+            for i, d in zip(vi, shape):
+                if isinstance(i, Enc):
+                    digits.extend(i.parts)
+                else:
+                    digits.append((i, d))
+            out, pos, ok = [], 0, True
+            for od in oshape:
+                if pos < len(digits) and _same_dim(digits[pos][1], od):
+                    out.append(digits[pos][0])
+                    pos += 1
+                    continue
+                grp, prod, p = [], 1, pos
+                hit = False
+                while p < len(digits):
+                    grp.append(digits[p])
+                    prod = prod * digits[p][1]
+                    p += 1
+                    if _same_dim(prod, od):
+                        hit = True
+                        break
+                if not hit:
+                    ok = False
+                    break
+                out.append(Enc(grp))
+                pos = p
+            if ok and pos == len(digits):
+                return snap(tuple(out))
+            # arithmetic route: row-major linear index, then unravel into the old shape
             lin = 0
             for i, d in zip(vi, shape):
-                lin = lin * d + i
+                lin = lin * d + as_int(i)
             out = [None] * len(oshape)
             for a in range(len(oshape) - 1, -1, -1):
                 if a == 0:
@@ -729,6 +804,28 @@ class IArr:
                 return tot
             return IArr.from_fn(self.vshape[:-1], fn)
         raise OutOfReach("np.sum axis")
+
+    def max(self, axis=None):
+        if axis is not None:
+            raise OutOfReach("max over an axis")
+        return self._extreme(True)
+
+    def min(self, axis=None):
+        if axis is not None:
+            raise OutOfReach("min over an axis")
+        return self._extreme(False)
+
+    def _extreme(self, is_max):
+        if all(isinstance(d, int) for d in self.vshape):
+            vals = [v for _, v in self.concrete_entries()]
+            return sym.smax(*vals) if is_max else sym.smin(*vals)
+        c = cur()
+        M = SReal.var(c.fresh_name("max" if is_max else "min"))
+        w = fresh_indices(c, self.vshape, "wit")
+        snap = self._snapshot()
+        c.assume(M == snap(w))
+        c.ghost.setdefault("bounds", []).append((snap, list(self.vshape), M, is_max))
+        return M
 
     def _np_max(self, args, **kw):
         if self.quat or self.cplx:
@@ -911,6 +1008,14 @@ def input_array(name, shape, quat=False, cplx=False):
         re, im = input_store(name + "_re", tuple(shape)), input_store(name + "_im", tuple(shape))
         return IArr.from_fn(list(shape), lambda vi: CScal(re.cell(vi), im.cell(vi)), cplx=True)
     return IArr.whole(input_store(name, tuple(shape)))
+
+
+def instantiate_bounds(ctx, idx):
+    """Instantiate the facts  max(A) >= A[idx] / min(A) <= A[idx]  of every extreme taken on this path."""
+    for snap, shape, M, is_max in ctx.ghost.get("bounds", []):
+        if len(shape) == len(idx):
+            v = snap(tuple(idx))
+            ctx.assume(M >= v if is_max else M <= v)
 
 
 def fresh_indices(ctx, shape, base="p"):
